@@ -169,6 +169,13 @@ Theorem C19_sel_returns_denotation_partial :
 Proof. exact sel_returns_denotation. Qed.
 Print Assumptions C19_sel_returns_denotation_partial.
 
+(* the executable statement demands a dataset for every valid request: any exception observed from the
+   constructors is judged a violation (this is how the repaired defects and the two "no dataset" findings
+   were and are detected) *)
+Theorem C19_spec_rejects_errors : forall c e, valid c = true -> spec_ok c (SErr e) = false.
+Proof. exact spec_rejects_errors. Qed.
+Print Assumptions C19_spec_rejects_errors.
+
 (* ---------- the part of the property that the code does not satisfy ---------- *)
 (* Full statement (false):  forall c, valid c = true -> spec_ok c (run c) = true.
    For kind 1 cases (selection by the value of a zipped coordinate) the faithful model - the zipped
